@@ -12,6 +12,24 @@ CHECKS = {
          "§5 C16"),
 }
 
+CHECKS.update({
+ "C01": ("model_checking",
+         "TLA+ spec of the lock-free mailbox at atomic-operation granularity (TLC: all interleavings, safety + liveness NoSpin); TLC-simulated behaviours replayed hook-by-hook on the real UnboundedMailbox under a controlled scheduler; recorded traces validated by TLC against the MailboxMon monitor",
+         "Every interleaving of the modelled configurations (2-3 callers, Pause/Resume, handlers acting on their own mailbox, consumer re-election) is explored by TLC for the safety invariants and, under weak fairness, for termination (no spin). The spec is bound to the code: TLC-generated behaviours are stepped through the real mailbox at the hook points with the mailbox state compared after every step, larger random scenarios run under seeded fine-grained (uniform and PCT-style) schedules, and every recorded event trace is judged by the TLA+ monitor.",
+         "Queues are assumed linearisable FIFO (C02); sync/atomic is sequentially consistent; only the interleavings that were replayed/sampled bind the code, exhaustiveness holds for the model.",
+         "§5 C01"),
+ "C02": ("model_checking",
+         "TLA+ spec of the ring buffer index arithmetic vs. a ghost FIFO (TLC, all words); every TLC-enumerated operation word replayed on the real RingQueue and judged by RingMon; mailbox ordering traces (controlled scheduler) judged by MailboxMon (SenderFIFO, SystemFirst)",
+         "The ring algorithm is model-checked for all operation words up to 12/24 operations from every initial size 1..8; all words of the small configuration (tens of thousands) plus simulated and random long words around the real growth boundaries are executed on the real queue and their results validated by the monitor; per-sender FIFO and system-before-user are validated on fine-grained controlled executions of the real mailbox.",
+         "Kill and stash ordering are decided on actor-system traces (ActorSys part); ring operations are atomic under the queue mutex.",
+         "§5 C02"),
+ "C17": ("model_checking",
+         "TLA+ transcription of MergeFromWithOptions model-checked over all reachable view triples (TLC); monitor CVMon (TLC) evaluates the merge laws on result tables produced by the real ClusterView for every ordered pair of a TLC-generated well-formed view domain",
+         "TLC checks union/newest/no-regress/monotone/changed and commutativity/associativity/idempotence of membership on every reachable triple of views of the model (joins, restarts, fresh re-joins, status changes, increments, merges, all strategies and skew settings). The real merge is then run on every ordered pair of 250-700 well-formed views per option set (quick: ~1.1M merges) and TLC judges the laws on the implementation's own results, associativity on pairs x sampled third operands.",
+         "Well-formed views are a superset of reachable ones; timestamps are ranks; 2-3 member ids.",
+         "§5 C17"),
+})
+
 NOT_YET = {
 }
 
